@@ -1336,3 +1336,97 @@ func TestVerifC09Prepare(t *testing.T) {
 		"unparsable) -> Prepare on a node with nil / empty annotations, third-party allocations absent / unparsable / two batch entries + one prod entry (missing keys) -> " +
 		"NeedSync against an old amount on/around the diff boundary; non-trivial = fresh metrics and a positive amount on the node; distinct by op lines")
 }
+
+// ---------- exhaustive small scope (thorough tier) ----------
+
+// TestVerifC09Exhaustive enumerates policy {usage, request, maxUsageRequest} x reclaim threshold {0,50,100,150} x
+// batch cap {none, 0, 50, 100, 150 for the small mixes; none, 50 for the 3-pod mixes} x every pod mix of <= 3 pods where a
+// pod is (priority label absent/prod/mid/batch/free) x (QoS label absent/LSE/LSR/LS/BE) x (no metric / usage below
+// request / usage above request), on a 100-unit node with small fixed amounts.
+func TestVerifC09Exhaustive(t *testing.T) {
+	h := vOpen("C09")
+	if h == nil {
+		t.Skip("VERIF_OUT not set")
+	}
+	type pk struct{ prio, qos, met int } // met: 0 none, 1 low, 2 high
+	var classes [][2]int
+	for _, pr := range []int{-1, 0, 1, 2, 3} {
+		for _, q := range []int{-1, 0, 1, 2, 3} {
+			classes = append(classes, [2]int{pr, q})
+		}
+	}
+	var kinds []pk
+	for _, c := range classes {
+		for m := 0; m < 3; m++ {
+			kinds = append(kinds, pk{c[0], c[1], m})
+		}
+	}
+	idx := 0
+	run := func(pol int, thr int64, capPct int64, pods []pk) {
+		r := h.Begin(idx)
+		idx++
+		if r == nil {
+			return
+		}
+		s := &c09Scn{cpuThr: thr, memThr: thr, cpuPol: pol, memPol: pol, cpuCap: capPct, memCap: capPct, degradeMin: 15,
+			capC: 100, capM: 100, allocC: 90, allocM: 100, sysC: 10, sysM: 5, hasUpd: true, upd: c09Now - 60}
+		for j, k := range pods {
+			rc, rm := int64(20+10*j), int64(30+10*j)
+			p := c09Pod{key: j + 1, phase: 0, prioLabel: k.prio, qosLabel: k.qos, kubeSet: true, kube: 1, ctrs: [][2]int64{{rc, rm}}}
+			s.pods = append(s.pods, p)
+			switch k.met {
+			case 1:
+				s.mets = append(s.mets, c09Met{key: p.key, prio: 0, cpu: rc / 2, mem: rm / 2})
+			case 2:
+				uc := 2 * rc
+				if k.qos == 0 {
+					uc = rc // LSE: exclusive cores
+				}
+				s.mets = append(s.mets, c09Met{key: p.key, prio: 0, cpu: uc, mem: 2 * rm})
+			}
+		}
+		c09Emit(h, s)
+		res := c09Run(h, s)
+		c09Obs(h, &res)
+		c09Oracle(h, s, &res)
+		if len(pods) > 0 && res.kind == 0 && (res.cpu > 0 || res.mem > 0) {
+			h.Nontrivial()
+		}
+		h.Tag(fmt.Sprintf("exh:pods%d", len(pods)))
+		h.End()
+	}
+	allCaps := []int64{-1, 0, 50, 100, 150}
+	for pol := 0; pol < 3; pol++ {
+		for _, thr := range []int64{0, 50, 100, 150} {
+			for _, cp := range allCaps {
+				run(pol, thr, cp, nil)
+				for _, a := range kinds {
+					run(pol, thr, cp, []pk{a})
+				}
+			}
+			for _, cp := range []int64{-1, 50} {
+				for i, a := range kinds {
+					for _, b := range kinds[i:] {
+						run(pol, thr, cp, []pk{a, b})
+					}
+				}
+				// three pods: every multiset of classes, the metric pattern rotates with the class indices
+				for i := range classes {
+					for j := i; j < len(classes); j++ {
+						for k := j; k < len(classes); k++ {
+							rot := (i + j + k) % 3
+							run(pol, thr, cp, []pk{
+								{classes[i][0], classes[i][1], rot % 3},
+								{classes[j][0], classes[j][1], (rot + 1) % 3},
+								{classes[k][0], classes[k][1], (rot + 2) % 3}})
+						}
+					}
+				}
+			}
+		}
+	}
+	h.Extra("exhaustive", fmt.Sprintf("policy x reclaim threshold {0,50,100,150} x batch cap x all pod mixes of <= 3 pods over 5 priority labels x 5 QoS labels x 3 metric patterns: %d cases", idx))
+	h.Close("exhaustive small scope: 3 policies x reclaim thresholds {0,50,100,150} x batch cap {none,0,50,100,150} (<=1 pod) / {none,50} (2-3 pods) x every multiset of <= 2 pods over " +
+		"(priority label absent/prod/mid/batch/free) x (QoS label absent/LSE/LSR/LS/BE) x (no metric / usage < request / usage > request) and every 3-pod multiset of classes with " +
+		"rotating metric patterns, on a 100-unit node; non-trivial = >= 1 pod and a positive amount")
+}
